@@ -42,8 +42,13 @@ claim("C04",
       "committed is in a slot xor owned by exactly one in-flight request xor held by the asynchronous repair between its read and its commit); no stall; "
       "at quiescence (no client AND no repair mid-way; the weaker hypothesis is refuted by a decided witness) committed = dealt; every returned request's "
       "revision is resolved; the slot ring of the real code behaves as the model's slot map (regenerated order facts + ring_window_injective). "
+      "KB.Props.C04Window (624b477, `Deal` refuses while dealt+1-committed >= the ring): in every reachable state every dealt unresolved revision is "
+      "inside the ring's window and has a slot of its own, with NO bound on requests in flight (`window_holds`, `notify_never_overflows`, "
+      "`slot_always_free`); a full window is a refusal without a revision, not a panic; the old `Deal` is refuted on a 3-slot ring (decided). "
       "Correspondence: gated schedules (every storage call a script step, incl. the repair loop's own calls) on three engines.",
-      TB + "Atomicity granularity of KB.Sys (one Deal / one batch commit / one snapshot read / one slot store per step); Go scheduler fairness for liveness.",
+      TB + "Atomicity granularity of KB.Sys (one Deal / one batch commit / one snapshot read / one slot store per step); Go scheduler fairness for liveness. "
+      "The full-window path is not exercised on the real code (100000 requests in flight; /repo has no verif-only way to shrink the ring): theorem + "
+      "regenerated constant + the instruction-level model of Deal (C18Cas).",
       "Lean 4 proof (inductive invariant over all schedules of an LTS) + scheduled differential correspondence", "DESIGN.md §5 C04")
 claim("C11",
       "Lean theorems KB.Props.C11 on the reference engine every other theorem uses: batch all-or-nothing and applied exactly when all conditions "
@@ -73,12 +78,12 @@ claim("C01",
       "guarded delete named exactly its predecessor's revision and every create found the key absent or deleted (`chain`); two writers conditioned on "
       "the same revision never both succeed; a step that applies nothing leaves the store unchanged; the index record always equals the last applied "
       "write; a CAS conflict means the index really differed at that step. KB.Props.C01Repair (creator since eb6d1d1, its bounded re-evaluation "
-      "loop a step per storage call): a create is answered 'condition failed' only if at some moment of the log between its begin and its answer the "
-      "key's revision record was live or a deletion at/above the create's revision, or after 4 failed compare-and-swaps with >= 4 writes to the key "
-      "meanwhile (`create_cf_justified_under_repair`, `create_cf_names_the_interferer`); the auditor's schedule ends `ok` (decided), the pre-fix creator "
-      "is refuted on it (decided). Correspondence: gated schedules on three engines incl. ALL interleavings of "
+      "loop a step per storage call; since 42e5238 a deletion record at/above the create's revision is an error): a create is answered 'condition failed' "
+      "only if at some moment of the log between its begin and its answer the key was LIVE, or after 4 failed compare-and-swaps with >= 4 writes to the key "
+      "meanwhile (`create_cf_justified_under_repair`, `create_cf_names_the_interferer`); the auditors' schedules end `ok` (repair dealt before the create) / "
+      "`error` (after) (decided), the pre-fix creators are refuted on them (decided). Correspondence: gated schedules on three engines incl. ALL interleavings of "
       "two clients for 21 request-shape pairs; chain oracle on the implementation's responses; a parked create stepped against the stepped repair "
-      "of an uncertain delete (pseudo client R), repair dealt before / after the create, random placements.",
+      "of an uncertain delete (pseudo client R), repair dealt before (must be ok) / after the create (must be an error, never cf), random placements.",
       TB + "Each engine serialises overlapping transactions on one index key (memkv mutex, badger SSI, tikv optimistic conflicts): the gated harness applies "
       "batches atomically at their release point. `cond_failed_justified` is proved for creates over the whole request (C01Repair, KB.Sys has no compaction "
       "action: that race is C07Race's) and in its local form for guarded updates / deletes (the failing commit step is the moment).",
